@@ -61,3 +61,11 @@ reg("C14", "^TestC14$", q=(150, 4, 900), t=(1000, 16, 3600), batch=150,
          "included) is called while the real processor is halted by a generated inconsistency; reorg points decide whether the halt must persist or clear.",
     note="Trusted: reflection-based argument synthesis (a parameter type without a pool makes the harness fail loudly); GetLastReorgEvent excluded by name (reads the reorg detector, not the store).",
     design="§3 C14")
+
+reg("C11", "^TestC11", q=(250, 4, 900), t=(2000, 16, 3600), batch=250,
+    technique="property-based testing: rapid-generated L1 histories against reference models of GlobalExitRootV2 / rollup manager exit tree; differential run against the real contracts in an in-process EVM",
+    text="Exploration: the real L1 info tree processor (and, in the EVM leg, the public l1infotreesync.New on a simulated chain "
+         "with the real GlobalExitRootV2 contract and the repository's VerifyBatchesMock) is compared leaf by leaf, root by root and "
+         "rollup by rollup with the contracts' algorithms.",
+    note="Trusted: ref.L1InfoLeaf/Frontier/Sparse (mirrors of the Solidity code, tied to the real contracts by the EVM leg); simulated backend.",
+    design="§3 C11")
